@@ -20,11 +20,14 @@ from ..alias import (
     Write,
     chain_str,
     enum_paths,
+    expand,
     is_self_call,
+    mentions,
     mro_inliner,
     param_names,
     pick_def,
     same_expr,
+    stable_ref,
     writes_of,
 )
 from ..core import AnalysisError, Report
@@ -50,61 +53,8 @@ DOCUMENTED = {
 
 
 # ------------------------------------------------------------------------- helpers
-def expand(e: ast.AST, path: Path, idx: int, depth: int = 0) -> ast.AST:
-    """copy of an expression with local names replaced by their (single-assignment)
-    definitions on this path, so that hoisted sub-expressions compare equal"""
-
-    class T(ast.NodeTransformer):
-        def visit_Name(self, n: ast.Name):
-            if depth > 6:
-                return n
-            d = path.lookup(n.id, idx)
-            if d is not None and d.kind == "assign" and d.value is not None:
-                return expand(d.value, path, d.idx, depth + 1)
-            return n
-
-        def visit_Call(self, n: ast.Call):
-            n = self.generic_visit(n)
-            if isinstance(n.func, ast.Name) and n.func.id == "slice" and not n.keywords and 1 <= len(n.args) <= 3:
-                a = list(n.args)
-                none = lambda x: None if isinstance(x, ast.Constant) and x.value is None else x  # noqa: E731
-                if len(a) == 1:
-                    return ast.Slice(lower=None, upper=none(a[0]), step=None)
-                return ast.Slice(lower=none(a[0]), upper=none(a[1]), step=none(a[2]) if len(a) == 3 else None)
-            return n
-
-    import copy
-
-    return T().visit(copy.deepcopy(e))
 
 
-def mentions(e: ast.AST, path: Path, idx: int, name: str) -> bool:
-    """does the value of ``e`` derive (through local definitions) from parameter ``name``"""
-    seen = set()
-
-    def walk(x: ast.AST, i: int, depth: int) -> bool:
-        for n in ast.walk(x):
-            if isinstance(n, ast.Name) and isinstance(n.ctx, ast.Load):
-                d = path.lookup(n.id, i)
-                if d is None or d.kind == "aug":
-                    # (an in-place update keeps the identity of the previous binding)
-                    if n.id == name:
-                        return True
-                    if d is None:
-                        continue
-                if d.value is not None and (id(d.value), d.idx) not in seen and depth < 8:
-                    seen.add((id(d.value), d.idx))
-                    if walk(d.value, d.idx, depth + 1):
-                        return True
-                if d.kind == "aug":
-                    p = path.lookup(n.id, d.idx)
-                    if p is None and n.id == name:
-                        return True
-                    if p is not None and p.value is not None and walk(p.value, p.idx, depth + 1):
-                        return True
-        return False
-
-    return walk(e, idx, 0)
 
 
 def list_mutations(ws: list[Write], place: str) -> list[tuple[str, Write]]:
@@ -119,6 +69,18 @@ def list_mutations(ws: list[Write], place: str) -> list[tuple[str, Write]]:
         elif w.kind in ("mutcall", "store", "del", "aug-name", "out") and w.val.shares and w.val.roots and all(r == place for r in w.val.roots):
             out.append((w.attr if w.kind == "mutcall" else {"store": "setitem", "del": "delitem", "aug-name": "aug", "out": "out"}[w.kind], w))
     return out
+
+
+def appended(kind: str, w: Write) -> list[ast.AST] | None:
+    """the element expressions a list mutation appends (``.append(x)``, ``+= [x]``,
+    ``.extend([x])``), or None when it is not an append of displayed elements"""
+    if kind == "append" and w.value is not None:
+        return [w.value]
+    if kind in ("aug", "extend") and isinstance(w.value, (ast.List, ast.Tuple)) and not any(isinstance(x, ast.Starred) for x in w.value.elts):
+        if kind == "aug" and not isinstance(getattr(w.node, "ctx", None), ast.Store):
+            return None
+        return list(w.value.elts)
+    return None
 
 
 def is_empty_list(e: ast.AST | None) -> bool:
@@ -309,7 +271,9 @@ def check_append(rep: Report, ix, clf: Classifier) -> None:
         ws = writes_of(p, clf, f)
         md = list_mutations(ws, "self.data")
         mt = list_mutations(ws, "self.times")
-        ok_shape = [k for k, _ in md] == ["append"] and [k for k, _ in mt] == ["append"]
+        ad = [appended(k, w) for k, w in md]
+        at = [appended(k, w) for k, w in mt]
+        ok_shape = len(ad) == 1 and len(at) == 1 and ad[0] is not None and at[0] is not None and len(ad[0]) == 1 and len(at[0]) == 1
         if not ok_shape:
             rep.violation(
                 "C20.append-once",
@@ -319,11 +283,12 @@ def check_append(rep: Report, ix, clf: Classifier) -> None:
             )
             continue
         wd, wt = md[0][1], mt[0][1]
-        v = clf.classify(wd.value, p, wd.idx, f) if wd.value is not None else Val("UNKNOWN", why="no argument")
-        derived = wd.value is not None and mentions(wd.value, p, wd.idx, p_data)
-        rep.sample({"construct": f.ref, "appended frame": ast.unparse(wd.value) if wd.value is not None else None, "classified": v.show(), "why": v.why})
+        e_data, e_time = ad[0][0], at[0][0]
+        v = clf.classify(e_data, p, wd.idx, f)
+        derived = mentions(e_data, p, wd.idx, p_data)
+        rep.sample({"construct": f.ref, "appended frame": ast.unparse(e_data), "classified": v.show(), "why": v.why})
         if v.kind == "UNKNOWN":
-            raise AnalysisError(f"{f.ref}: cannot classify appended value `{ast.unparse(wd.value)}`: {v.why}")
+            raise AnalysisError(f"{f.ref}: cannot classify appended value `{ast.unparse(e_data)}`: {v.why}")
         if not v.fresh:
             rep.violation(
                 "C20.append-copies",
@@ -333,7 +298,7 @@ def check_append(rep: Report, ix, clf: Classifier) -> None:
             )
         if not derived:
             rep.violation("C20.append-copies", f"{f.ref}::stored-value", f"the appended frame does not derive from parameter `{p_data}`", line=wd.node.lineno)
-        if wt.value is None or not mentions(wt.value, p, wt.idx, p_time):
+        if not mentions(e_time, p, wt.idx, p_time):
             rep.violation("C20.append-copies", f"{f.ref}::stored-time", f"the appended time stamp does not derive from parameter `{p_time}`", line=wt.node.lineno)
         rep.oblige("append:fresh-copy", v.fresh and derived, v.show())
     rep.floor("normally returning paths of _append_data", n_norm, 1)
@@ -357,7 +322,15 @@ def check_append(rep: Report, ix, clf: Classifier) -> None:
         n += 1
         i, c = calls[0]
         a_data, a_time = call_arg(c, f.node, p_data), call_arg(c, f.node, p_time)
-        ok = a_data is not None and a_time is not None and mentions(a_data, p, i, gp[0]) and mentions(a_time, p, i, gp[1]) and not mentions(a_data, p, i, gp[1])
+        # the time stamp is the parameter, or the documented default when it is None
+        defaulted = p.decided(lambda t: isinstance(t, ast.Compare) and chain_str(t.left) == gp[1] and isinstance(t.ops[0], ast.Is) and isinstance(t.comparators[0], ast.Constant) and t.comparators[0].value is None)
+        ok = (
+            a_data is not None
+            and a_time is not None
+            and mentions(a_data, p, i, gp[0])
+            and (mentions(a_time, p, i, gp[1]) or (defaulted is True and isinstance(a_time, ast.Name) and a_time.id == gp[1]))
+            and not mentions(a_time, p, i, gp[0])
+        )
         if ok:
             v = clf.classify(a_data, p, i, g)
             ok = v.shares and all(r.endswith(".data") for r in v.roots)
@@ -418,7 +391,7 @@ def check_get_field(rep: Report, ix, clf: Classifier) -> None:
 
     # the value assignment relies on the ``data`` setter of fields storing by value
     setter = pick_def(ix, FBASE, "FieldBase.data", "setter")
-    rep.saw("functions", setter.ref + " (setter)")
+    rep.saw("functions", stable_ref(setter))
     n_store = 0
     for p in enum_paths(setter):
         if not p.normal:
@@ -430,7 +403,7 @@ def check_get_field(rep: Report, ix, clf: Classifier) -> None:
         if not stores or others:
             rep.violation(
                 "C20.read-assigns-values",
-                f"{setter.ref}::setter",
+                f"{stable_ref(setter)}::value-store",
                 "assigning to `field.data` must copy values into the field's own array (`self._data_valid[...] = value`) and do nothing else; "
                 f"found {[w.show() for w in ws]}",
                 line=setter.node.lineno,
@@ -494,7 +467,6 @@ def check_init(rep: Report, ix, clf: Classifier) -> None:
                 "the constructor takes `times` and `data` from the caller; a path returns normally without having established len(self.times) == len(self.data) after the last assignment",
                 line=f.node.lineno,
             )
-            break
     rep.oblige("init:length-check", not any(x.rule == "C20.init-length-check" for x in rep.findings))
     rep.floor("normally returning paths of MemoryStorage.__init__", n, 2)
 
